@@ -1112,3 +1112,27 @@ func SpecRdbBuffered(r *memoryRdb) int64 { panic("abstract spec function") }
 //@   arith int
 //@   properties C14
 //@   modifies nothing
+
+// ---- the leader announces a transfer at the offset its reader really starts at (C16) -----------
+// The follower files what it receives under the announced offset: for a snapshot that is the
+// snapshot's own offset, whatever older position the follower had asked for.
+//@ func ChannelReader.Left(self) (l)
+//@   trusted abstract cache reader
+//@   modifies nothing
+//@ func ChannelReader.Size(self) (n)
+//@   trusted abstract cache reader
+//@   modifies nothing
+//@ func ChannelReader.IsAof(self) (b)
+//@   trusted abstract cache reader
+//@   modifies nothing
+//@ func ReplicaLeader.sendData
+//@   arith int
+//@   properties C16
+//@   replay syncer_replicaFollower
+//@   ghost var readerLeft mathint = 0 - 1
+//@   ghost var readerSize mathint = 0 - 1
+//@   requires nonnil: rl != nil
+//@   modifies heap, readerLeft, readerSize, chId, chRight, chEmpty
+//@   set readerLeft = result after call Left
+//@   set readerSize = result after call Size
+//@   assert at call Send: a_transfer_is_announced_at_the_offset_the_readers_data_starts_at: arg0 != nil && arg0.Code == golang.SyncResponse_META ==> arg0.Offset == readerLeft && arg0.Size == readerSize
